@@ -33,6 +33,7 @@ func init() {
 		Rule: "the constants of every enumerated type are read from the current /repo/ir/enum/*.go and /repo/ir/types/types.go with go/types (domain only); each defined value v is printed with String(), read back with asmenum.XxxFromString, checked for the Type(N) fall-back and for keyword clashes, then placed in its host construct of a minimal module built through the API, printed, re-parsed with asm.ParseString (value must come back) and offered to llvm-as. " +
 			"flag sets: all subsets of AllocKind and DISPFlag members, all DIFlag subsets of size<=2 (quick) / <=3 (thorough) plus PRNG subsets, crossed with the accessibility and inheritance sub-fields, printed inside their metadata node and re-parsed. " +
 			"header combinations: linkage x preemption x visibility x DLL storage class x unnamed_addr (x TLS model) on globals, global declarations, function declarations, definitions and aliases; the combinations llvm-as accepts (on a text written by the monitor) are set through the API, printed, re-parsed and every field compared. " +
+			"keyword lists edited in place share no storage between instructions. contexts: every function attribute with a payload in a function header, on a call site and in an attribute group; call-site calling conventions (keywords, 77, and 101/200/1023 which have no keyword) on call and invoke against every callee convention; the virtuality of a subprogram next to six spFlags sets and two flags sets. " +
 			"non-trivial = a defined value other than the zero/none member, or a non-empty flag set; distinct by (type, value)",
 		Gen:           genC18,
 		MinNontrivial: 300,
@@ -1798,7 +1799,8 @@ func c18Contexts(r *fw.Rec) {
 		}
 	}
 	// (b) call-site calling conventions against the callee's
-	ccs := []enum.CallingConv{enum.CallingConvNone, enum.CallingConvFast, enum.CallingConvCold, enum.CallingConvX86FastCall, enum.CallingConv(77)}
+	ccs := []enum.CallingConv{enum.CallingConvNone, enum.CallingConvFast, enum.CallingConvCold, enum.CallingConvX86FastCall, enum.CallingConv(77), enum.CallingConvM68kInterrupt, enum.CallingConv(200), enum.CallingConv(1023)}
+	// (77 has a keyword of its own, 101 is a defined constant without one, 200 and 1023 are plain numbers)
 	for _, calleeCC := range ccs {
 		for _, callCC := range ccs {
 			r.Eval(1)
@@ -1833,6 +1835,39 @@ func c18Contexts(r *fw.Rec) {
 			}
 			r.Nontrivial(key)
 			r.Tally("contexts", "call-site-cc")
+		}
+	}
+	// (c) a keyword next to the other fields of its node: the virtuality of a
+	// DISubprogram next to each spFlags set (the IR keeps both; both are printed)
+	spSets := []enum.DISPFlag{0, enum.DISPFlagOptimized, enum.DISPFlagLocalToUnit, enum.DISPFlagLocalToUnit | enum.DISPFlagOptimized, enum.DISPFlagPure | enum.DISPFlagElemental, enum.DISPFlagMainSubprogram}
+	for _, virt := range []enum.DwarfVirtuality{enum.DwarfVirtualityNone, enum.DwarfVirtualityVirtual, enum.DwarfVirtualityPureVirtual} {
+		for _, sp := range spSets {
+			for _, dflags := range []enum.DIFlag{0, enum.DIFlagPrototyped} {
+				r.Eval(1)
+				key := fmt.Sprintf("contexts/subprogram-fields/%s/spFlags=%d/flags=%d", virt, sp, dflags)
+				m := ir.NewModule()
+				d := &metadata.DISubprogram{MetadataID: 0, Name: "s", Line: 3, Virtuality: virt, SPFlags: sp, Flags: dflags}
+				m.MetadataDefs = append(m.MetadataDefs, d)
+				m.NamedMetadataDefs["md"] = &metadata.NamedDef{Name: "md", Nodes: []metadata.Node{d}}
+				text, pp := printGuard(m)
+				m2, perr, pmsg := parseGuard("c18-spfields", text)
+				if pp != "" || pmsg != "" || perr != nil || len(m2.MetadataDefs) != 1 {
+					r.Violate(fw.Violation{Key: key, Input: text, What: "print or re-parse fails"})
+					continue
+				}
+				d2, ok := m2.MetadataDefs[0].(*metadata.DISubprogram)
+				if !ok || d2.Virtuality != virt || d2.SPFlags != sp || d2.Flags != dflags {
+					r.Violate(fw.Violation{Key: key, Input: text, What: fmt.Sprintf("a subprogram built with virtuality %s, spFlags %d, flags %d and printed as `%s` reads back as %s", virt, sp, dflags, firstLine(d.LLString()), func() string {
+						if !ok {
+							return fmt.Sprintf("%T", m2.MetadataDefs[0])
+						}
+						return fmt.Sprintf("virtuality %s, spFlags %d, flags %d", d2.Virtuality, d2.SPFlags, d2.Flags)
+					}())})
+					continue
+				}
+				r.Nontrivial(key)
+				r.Tally("contexts", "subprogram-fields")
+			}
 		}
 	}
 }
